@@ -232,10 +232,24 @@ func randD(r *Rng, depth int, o genOpts) *D {
 		return d
 	case c < 72:
 		return dSub("FmtFwd", sub())
-	case c < 75:
+	case c < 74:
 		return dSub("RValue", sub())
+	case c < 75:
+		return &D{K: []string{"RVIdx", "RVFieldI", "RVFieldE"}[r.Intn(3)], N: randInt(r), S: QS(randPayload(r, o)), Sub: []*D{sub()}}
 	case c < 76:
-		return &D{K: []string{"RValueZero", "RValueField"}[r.Intn(2)], N: randInt(r), S: QS(randPayload(r, o))}
+		k := []string{"RValueZero", "RValueField", "RVFieldT", "RVFieldT"}[r.Intn(4)]
+		if k == "RVFieldT" && !o.redactKinds && !o.safeKinds {
+			k = "RValueField"
+		}
+		d := &D{K: k, N: randInt(r), S: QS(randPayload(r, o))}
+		if k == "RVFieldT" {
+			f := int64(r.Intn(7))
+			if !o.redactKinds {
+				f = []int64{2, 3, 4, 5, 6}[r.Intn(5)] // no redactables
+			}
+			d.N = 7*int64(r.Intn(5000)) + f
+		}
+		return d
 	case c < 78 && o.safeKinds:
 		return dSub("SVStruct", sub(), sub())
 	case c < 80 && o.safeKinds:
@@ -500,14 +514,23 @@ func randDir(r *Rng, o genOpts, rare bool) Dir {
 	} else {
 		d.Verb = commonVerbs[r.Intn(len(commonVerbs))]
 	}
+	// widths and precisions around the sizes of the formatter's fixed scratch buffers
+	if r.Chance(1, 14) {
+		d.Width = wideForms[r.Intn(len(wideForms))]
+	}
+	if r.Chance(1, 14) {
+		d.Prec = "." + wideForms[r.Intn(len(wideForms))]
+	}
 	if d.Width == "*" {
-		d.WArg = []int{0, 1, 6, -6, 20}[r.Intn(5)]
+		d.WArg = []int{0, 1, 6, -6, 20, 69, -70, 131}[r.Intn(8)]
 	}
 	if d.Prec == ".*" {
-		d.PArg = []int{0, 1, 3, -1, 9}[r.Intn(5)]
+		d.PArg = []int{0, 1, 3, -1, 9, 66, 69, 131}[r.Intn(8)]
 	}
 	return d
 }
+
+var wideForms = []string{"30", "60", "63", "64", "65", "66", "67", "68", "69", "70", "71", "100", "129", "257", "520"}
 
 // Call is one print call: structured format (or Print-style when Format is
 // nil and Raw is empty), operands, and where the star operands sit.
